@@ -144,6 +144,9 @@ Definition periodOf (mode : mpdType) (cont : bool) (snr : Z) (periodDur : Z) (as
   do out <- mapM (splitAS mode cont snr pNr periodDur) ases;
   Ok {| pd_nr := pNr; pd_start := pNr * periodDur; pd_as := out |}.
 
+(** the typed error errPeriodDuration (commit e7eedfb: the handler answers it with 400) *)
+Definition rejectMsg : string := "period duration not a multiple of segment duration".
+
 (** [splitPeriod] for [cfg.PeriodsPerHour = &pph]; [astMS = cfg.StartTimeS*1000], [snr =
     cfg.getStartNr()]; [startTimeMS]/[nowMS] are the wrapTimes fields.  Periods are counted from
     availabilityStartTime (repository commit 961c9dc), the $Number$ startNumber of a period
@@ -154,7 +157,7 @@ Definition splitPeriod (pph segDurMS : Z) (mode : mpdType) (cont : bool) (astMS 
   let periodDur := Z.quot 3600 pph in
   if segDurMS =? 0 then Panic "splitPeriod: integer divide by zero" else
   if negb (Z.rem (periodDur * 1000) segDurMS =? 0) then
-    Err "period duration not a multiple of segment duration" else
+    Err rejectMsg else
   if periodDur * 1000 =? 0 then Panic "splitPeriod: integer divide by zero" else
   let startPeriodNr := Z.quot (startTimeMS - astMS) (periodDur * 1000) in
   let endPeriodNr := Z.quot (nowMS - astMS) (periodDur * 1000) in
